@@ -844,3 +844,178 @@ class NodeMiscPart:
 
 
 NODEMISC = NodeMiscPart()
+
+
+# ---------------------------------------------------------------------------------------------------------------------
+# REMOVED: what Tree._unregister(clear=True) leaves on a removed node; every public accessor of a removed node
+# ---------------------------------------------------------------------------------------------------------------------
+RM_UNIV = ["s:a", "s:b", "s:it's", "i:7", "e:1", "e:1", "s:c", "p:3", "s:a"]
+
+
+def _ans(fn, lid):
+    """one accessor call -> observation (mirror of MiscRemoved.sx_ans) + the raw value (for the oracle)"""
+    from nutree import Node as _Node
+    try:
+        v = fn()
+    except Exception as e:  # noqa: BLE001
+        return [-1, H.err_class(e)], e
+    if v is None:
+        return [0], v
+    if isinstance(v, bool):
+        return [1, v], v
+    if isinstance(v, int):
+        return [2, v], v
+    if isinstance(v, str):
+        return [3, v], v
+    if isinstance(v, _Node):
+        return [5, lid(v)], v
+    if isinstance(v, (list, tuple)):
+        return [6, [lid(x) for x in v]], v
+    if isinstance(v, Tree):
+        return [7], v
+    return [9, str(v)], v
+
+
+def removed_probes(n, typed, others):
+    """the accessor calls, in the order of CaseMiscRemoved.accs"""
+    P = [lambda: n.name, lambda: n.data, lambda: n.data_id, lambda: n.node_id, lambda: n.meta, lambda: n.tree,
+         (lambda: n.kind) if typed else (lambda: None),
+         lambda: n.parent, lambda: n.children, lambda: n.is_system_root(), lambda: n.is_top(), lambda: n.is_leaf(), lambda: n.is_clone(),
+         lambda: n.depth(), lambda: n.calc_depth(), lambda: n.calc_height(), lambda: n.count_descendants(),
+         lambda: n.count_descendants(leaves_only=True), lambda: list(n.iterator()), lambda: list(n.iterator(add_self=True)), lambda: n.get_top(),
+         lambda: n.get_parent_list(), lambda: n.get_parent_list(add_self=True), lambda: n.get_parent_list(bottom_up=True),
+         lambda: n.get_parent_list(add_self=True, bottom_up=True),
+         lambda: n.path, lambda: n.get_path(), lambda: n.get_path(add_self=False), lambda: n.up(), lambda: n.up(0), lambda: n.up(2),
+         lambda: n.get_meta("k"), lambda: n.get_clones(), lambda: n.get_clones(add_self=True), lambda: repr(n)]
+    if not typed:
+        P += [lambda: n.get_children(), lambda: n.first_child(), lambda: n.last_child(), lambda: n.has_children(), lambda: n.is_first_sibling(),
+              lambda: n.is_last_sibling(), lambda: n.get_siblings(), lambda: n.get_siblings(add_self=True), lambda: n.first_sibling(),
+              lambda: n.last_sibling(), lambda: n.prev_sibling(), lambda: n.next_sibling(), lambda: n.get_index()]
+    for o in others:
+        P += [lambda o=o: n.is_descendant_of(o), lambda o=o: n.is_ancestor_of(o), lambda o=o: n.get_common_ancestor(o)]
+    return P
+
+
+class RemovedPart:
+    tag = "REMOVED"
+    case_module = "CaseMiscRemoved"
+    case_vo = "theories/Cases/CaseMiscRemoved.vo"
+    run_fn = "run_misc_removed"
+    rule = ("removed nodes: plain and typed trees (all forests <= 4 nodes with clones + seeded random trees up to 9 nodes, metadata on every "
+            "second node) x one removal route on every node: remove, remove(keep_children), remove_children, remove(with_clones), "
+            "Tree.clear, del tree[data], in-place filter; every node object that left the tree is probed with 48 (plain) / 35 (typed) "
+            "accessor calls + is_descendant_of / is_ancestor_of / get_common_ancestor against a live node, a removed node and itself; "
+            "the model predicts the slots from the slots BEFORE the removal (clear flag and tag lifted from the source); oracle: raw "
+            "slots of the removed object, and no answer mentions a node that is still in the tree")
+
+    def descs(self, tier, rng):
+        nmax = 3 if tier == "quick" else 4
+        k = 0
+        for n in range(1, nmax + 1):
+            for shape in H.forests(n):
+                for typed in (False, True):
+                    k += 1
+                    nodes = B.shape_to_nodes(shape, lambda i, d, s, k=k: ((i + d * 3 + k) % len(RM_UNIV), ["a", "b"][(i + k) % 2] if typed else None, None))
+                    routes = [[r, i] for i in range(n) for r in ("remove", "remove_keep", "remove_children", "remove_clones", "del", "filter")] + [["clear", 0]]
+                    if tier == "quick":
+                        routes = rng.sample(routes, min(len(routes), 4))
+                    for r in routes:
+                        yield dict(typed=typed, univ=RM_UNIV, nodes=nodes, route=r)
+        for _ in range(60 if tier == "quick" else 800):
+            n = rng.randint(3, 9)
+            typed = rng.random() < 0.4
+            shape = H.random_shape(rng, n, deep=rng.choice([0.3, 0.6, 0.9]))
+            nodes = B.shape_to_nodes(shape, lambda i, d, s: (rng.randrange(len(RM_UNIV)), rng.choice(["a", "b"]) if typed else None, None))
+            yield dict(typed=typed, univ=RM_UNIV, nodes=nodes,
+                       route=[rng.choice(["remove", "remove", "remove_keep", "remove_children", "remove_clones", "del", "filter", "clear"]), rng.randrange(n)])
+
+    def shrink_candidates(self, desc):
+        return []
+
+    def run(self, desc) -> Case:
+        import nutree.tree as NT
+        typed = bool(desc.get("typed"))
+        U = B.make_universe(desc["univ"])
+        tree = B.new_tree(desc)
+        try:
+            B.add_nodes(tree._root, desc["nodes"], U, typed)
+        except Exception:  # noqa: BLE001   (a sibling clash in a generated labelling: build what can be built)
+            pass
+        root = tree._root
+        before = B.all_nodes(root)
+        local = {id(x): i + 1 for i, x in enumerate(before)}
+        local[id(root)] = 0
+
+        def lid(x):
+            return local.get(id(x), 999999)
+
+        for i, x in enumerate(before):
+            if i % 2:
+                x.set_meta("k", 5)
+        slots = {}
+        for x in before:
+            slots[id(x)] = dict(parent=lid(x._parent), children=None if x._children is None else [lid(c) for c in x._children],
+                                name=f"{x._data}", did=x._data_id, node_id=x._node_id, meta=x._meta and dict(x._meta), kind=getattr(x, "_kind", None))
+        kind, i = desc["route"]
+        target = before[i % len(before)] if before else None
+        err = None
+        try:
+            if kind == "clear" or target is None:
+                tree.clear()
+            elif kind == "remove":
+                target.remove()
+            elif kind == "remove_keep":
+                target.remove(keep_children=True)
+            elif kind == "remove_children":
+                target.remove_children()
+            elif kind == "remove_clones":
+                target.remove(with_clones=True)
+            elif kind == "del":
+                del tree[target.data]
+            elif kind == "filter":
+                keep = {id(x) for j, x in enumerate(before) if (j + i) % 3 == 0}
+                tree.filter(lambda nd: id(nd) in keep)
+        except Exception as e:  # noqa: BLE001   (refused: nothing is removed)
+            err = e
+        live = B.all_nodes(root)
+        live_ids = {id(x) for x in live}
+        removed = [x for x in before if id(x) not in live_ids]
+        others = ([live[0]] if live else []) + ([removed[0], removed[-1]] if removed else [])
+        fails = []
+        obs = []
+        reg = list(tree._node_by_id.values())
+        idx = [c for l in tree._nodes_by_data_id.values() for c in l]
+        for r in removed:
+            # raw slots: what _unregister(clear=True) assigns
+            if not (r._parent is None and r._tree is None and r._children is None and r._meta is None and r._data_id is None
+                    and r._node_id is None and r._data is NT._DELETED_TAG):
+                fails.append(f"removed node {lid(r)}: slots not cleared")
+            if any(r is x for x in reg) or any(r is x for x in idx):
+                fails.append(f"removed node {lid(r)} is still registered")
+            row = []
+            for fn in removed_probes(r, typed, others):
+                o, v = _ans(fn, lid)
+                row.append(o)
+                from nutree import Node as _Node
+                mentioned = [v] if isinstance(v, _Node) else [x for x in v if isinstance(x, _Node)] if isinstance(v, (list, tuple)) else []
+                if any(id(m) in live_ids or m is root for m in mentioned):
+                    fails.append(f"an accessor of removed node {lid(r)} returned a node that is still in the tree")
+                if isinstance(v, Tree):
+                    fails.append(f"removed node {lid(r)} still names its tree")
+            obs.append(row)
+
+        def slots_coq(s):
+            ch = "None" if s["children"] is None else "(Some " + H.coq_list(f"{c}%nat" for c in s["children"]) + ")"
+            meta = "None" if not s["meta"] else f"(Some {H.coq_meta(s['meta'])})"
+            return (f"(SL (Some {s['parent']}%nat) (Some 1%nat) {ch} {H.coq_text(s['name'])} (Some {H.coq_did(s['did'])}) (Some {H.z(s['node_id'])}) "
+                    f"{meta} {H.coq_opt(s['kind'], H.coq_text)})")
+
+        coq = (f"(RC {H.coq_bool(typed)} {H.coq_text('TypedNode' if typed else 'Node')} "
+               f"{H.coq_list(f'({lid(x)}, {lid(x._parent)})' for x in live)} "
+               f"{H.coq_list(f'({lid(r)}, {slots_coq(slots[id(r)])})' for r in removed)} {H.coq_list(str(lid(o)) for o in others)})")
+        return Case(desc=desc, coq_input=coq, impl_obs=obs, oracle_fail=("removed: " + fails[0]) if fails else None,
+                    nontrivial=bool(removed), key=H.digest(desc),
+                    stats=dict(route=kind, removed=len(removed), live=len(live), refused=err is not None))
+
+
+REMOVED = RemovedPart()
